@@ -142,6 +142,8 @@ def run_item(it):
                 continue   # C01's business
             a1 = astform.analyse(base)
             for label, L2 in variants(case["L"], names, rng):
+                if it.get("tier") == "quick" and label == "all-distinct":
+                    continue       # quick: four of the five derived assignments
                 try:
                     other = graph_of(case, op, L2, backend)
                 except Exception as e:
@@ -211,7 +213,7 @@ def run(tier):
     if tier == "quick":
         keep = {"elementwise": 16, "update_at": 25, "get_at": 8, "id": 8, "preserve": 4, "argfind": 4, "reduce": 2}
         cases = [c for i, c in enumerate(cases) if i % keep.get(c["fam"], 1) == 0]
-    items = [{"case": c, "seed": common.seed() * 17 + i, "ops": OPS[c["fam"]] if tier == "thorough" else [OPS[c["fam"]][i % len(OPS[c["fam"]])]]} for i, c in enumerate(cases)]
+    items = [{"case": c, "seed": common.seed() * 17 + i, "tier": tier, "ops": OPS[c["fam"]] if tier == "thorough" else [OPS[c["fam"]][i % len(OPS[c["fam"]])]]} for i, c in enumerate(cases)]
     results = common.parallel_map("run_chunk", sys.modules[__name__], items)
     recs = []
     for it, r in zip(items, results):
